@@ -7,7 +7,10 @@
 (*   - every given argument that the target accepts, under the same name,  *)
 (*     with the same value,                                                *)
 (*   - namespace = the given one, or R when it was not given,              *)
-(* and must pass the target's result back unchanged.  What an omitted      *)
+(* and must pass the target's result back unchanged (whatever the result   *)
+(* is: objects, one-element lists and tuples, empty lists, None ...), and  *)
+(* must leave the object standing for R (the next call that omits the      *)
+(* namespace is forwarded with R).  What an omitted      *)
 (* optional parameter other than namespace defaults to, and parameters the *)
 (* target does not have, are outside the claim.                            *)
 (*                                                                         *)
@@ -51,7 +54,12 @@ CaseOK(i) ==
         /\ Chk(c.calls = 1, <<"CASE_REJECTED", i, c.cls, c.method, "target calls", c.calls>>)
         /\ Chk(Restrict(o, DOMAIN e) = e /\ DOMAIN e \subseteq DOMAIN c.observed,
                <<"CASE_REJECTED", i, c.cls, c.method, c.mode, "given", c.given, "expected", e, "observed", c.observed>>)
-        /\ Chk(c.result = "RESULT", <<"CASE_REJECTED", i, c.cls, c.method, "result", c.result>>)
+        /\ Chk(c.result = "RESULT", <<"CASE_REJECTED", i, c.cls, c.method, "result", c.result_kind, c.result>>)
+        \* the object still stands for its namespace: a later call that omits the
+        \* namespace is forwarded with R, whatever this call was given
+        /\ Chk(c.ns_attr = "REGISTERED" /\ c.follow = "REGISTERED",
+               <<"CASE_REJECTED", i, c.cls, c.method, "given", c.given, "afterwards the object stands for",
+                 c.ns_attr, "and a call without namespace goes to", c.follow>>)
 
 AllCasesOK == \A i \in 1..Len(Cases) : CaseOK(i)
 
